@@ -34,7 +34,7 @@ FLOORS = {"quick": {"demux_packets": 8000, "fib_empty_table_cases": 150, "defaul
                        "hub_with_ports": 4000, "hub_without_ports": 4000, "splitter_packets": 16000, "fattree_built": 6000,
                        "fib_walks": 160000, "reverse_walks": 40000, "e2e_packets": 160000, "e2e_hops": 1000000,
                        "e2e_shared_class_runs": 2000, "e2e_SP": 600, "e2e_WFQ": 600, "e2e_DRR": 600, "e2e_VirtualClock": 600}}
-KEYS = tuple(FLOORS["quick"].keys()) + ("demux_reconfigurations", "splitter_rewriting_receivers")
+KEYS = tuple(FLOORS["quick"].keys()) + ("demux_reconfigurations", "splitter_rewriting_receivers", "fattree_twin_trees")
 
 
 def plan(tier):
@@ -307,6 +307,13 @@ def splitter_case(rng, stats, bad):
     for i in range(4):
         p = mkpkt(rng.randrange(5), src="x", pid=i, size=rng.choice([100, 200]))
         p.time = 1.5 + i
+        # fields set after construction by upstream elements (sink ACKs, meters, ports, wires, schedulers)
+        p.ack = 512 * (i + 1)
+        p.color = rng.choice(["", "green", "red"])
+        p.current_time = 0.25 * i
+        p.perhop_time = {"sw.0": 0.5 + i}
+        p.priorities = {3: 2}
+        all_attrs = {k: (dict(v) if isinstance(v, dict) else v) for k, v in vars(p).items()}
         orig_fields = tuple(getattr(p, f) for f in vnet.FIELDS)
         sp.put(p)
         stats["splitter_packets"] += 1
@@ -333,6 +340,13 @@ def splitter_case(rng, stats, bad):
                 if q is p or any(q is o2.got[-1] for k2, o2 in enumerate(outs) if o2 is not None and k2 != j and k2 != 0 and len(o2.got) == i + 1 and k2 < j):
                     bad("splitter-copy-not-separate", "a secondary splitter output did not get its own separate copy", j)
                     return False
+                if not isinstance(o, Rewriter):
+                    now_attrs = {k: v for k, v in vars(q).items()}
+                    if type(q) is not type(p) or now_attrs != all_attrs:
+                        diff = sorted(k for k in set(now_attrs) | set(all_attrs) if now_attrs.get(k, "<missing>") != all_attrs.get(k, "<missing>"))
+                        bad("splitter-copy-incomplete", "a splitter copy does not carry every attribute of the original packet",
+                            {"differing": diff, "output": j})
+                        return False
                 for f in vnet.FIELDS:
                     if isinstance(o, Rewriter):
                         break
@@ -398,6 +412,12 @@ def fattree_case(rng, stats, bad, k, e2e):
             bad("fattree-flow-path-not-shortest", "a generated flow's path is not a shortest path between its hosts", fl.path)
             return False
     ft.generate_fib(flows, tcp=tcp)
+    if rng.random() < 0.35:
+        # a second, independent tree of the same size gets its own flows and tables: this must not disturb the first
+        other = FatTree(k)
+        oflows = other.generate_flows(rng.randint(1, 20))
+        other.generate_fib(oflows, tcp=not tcp)
+        stats["fattree_twin_trees"] += 1
     for f, fl in flows.items():
         stats["fib_walks"] += 1
         for fid, path in ((fl.fid, fl.path),) + (((fl.fid + 10000, fl.path[::-1]),) if tcp else ()):
